@@ -86,6 +86,14 @@ def map_write(ctx):
                             return None
                         _verdict(ctx, f, site, trs, bool(exp), NONE, extra)
                         n += 1
+    # mapping values that name no dictionary entry - in particular the basic data types 0002h..0007h ("dummy" entries, which
+    # CiA 301 allows for RPDOs only): a TPDO mapping record never accepts them (nothing could be transmitted for them)
+    for idx in (0x1A00, 0x1A02):
+        for mapv in (0x00020008, 0x00050008, 0x00070020, 0x00010001):
+            trs = _run(m, f, {'obj->Key': (idx << 16) | 0x0100, '*buffer': mapv, 'out:CODictRdLong:2': OFF | 0x181,
+                              'out:CODictRdByte:2': 0, 'call:CODictFind': 0, 'call:COTInt32Write': NONE})
+            _verdict(ctx, f, 'map %04Xh (TPDO, disabled, count 0) value %08Xh naming no dictionary entry' % (idx, mapv), trs, False, NONE)
+            n += 1
     ctx.inst('RF2.pdo-write.map.rows', n)
 
 
